@@ -1065,7 +1065,13 @@ def compact_image(seed, M, N):
         y0, x0 = g.uniform(M * 0.4, M * 0.6), g.uniform(N * 0.4, N * 0.6)
         sy, sx = g.uniform(1.0, 2.0), g.uniform(1.0, 2.0)
         im += g.uniform(0.5, 1.0) * np.exp(-((rr - y0) ** 2 / (2 * sy * sy) + (cc - x0) ** 2 / (2 * sx * sx)))
-    im[im < 1e-9] = 0.0
+    # exactly zero outside the central box: 8 pixels of empty margin on every side (the callers' cases move
+    # it by at most 4), so np.roll never wraps anything around
+    m = 8
+    im[:m, :] = 0.0
+    im[-m:, :] = 0.0
+    im[:, :m] = 0.0
+    im[:, -m:] = 0.0
     return im
 
 
@@ -1094,7 +1100,7 @@ def caller_tomography(case):
                         "cross_correlation_align_stack: image %d is the reference translated by %s, predicted shift %s "
                         "(expected %s: translating the image by it reproduces the reference)" % (k, d, p, [-d[0], -d[1]])))
         err = float(np.abs(np.asarray(new[k]) - base).max()) / scale
-        if err > 1e-6:
+        if err > 1e-5:
             bad.append(("caller-tomography-align-stack-image",
                         "cross_correlation_align_stack: aligned image %d (translation %s, predicted shift %s) differs "
                         "from the reference by %.3g of its maximum" % (k, d, p, err)))
@@ -1291,7 +1297,18 @@ def run(ctx: Ctx):
         "integer-valued and band-limited images on 7 small shapes, the Coq model fed with the exact (integer) or "
         "2^-40-quantised correlation array and the captured upsampled window; coordinate cases: (shape, factor, peak "
         "estimate) with the kernel's sample positions measured from its response to single Fourier modes. A case is "
-        "distinct by its full parameter tuple, non-trivial unless it is an identical-image case without upsampling.")
+        "distinct by its full parameter tuple, non-trivial unless it is an identical-image case without upsampling. "
+        "Round 3: the peak exactly on the half-size boundary of both axes (every factor, both estimators, band-limited and "
+        "integer images); EVERY factor 1..64: identical images on a fresh shape/image per factor and estimator + the window "
+        "geometry (sizes, torch centre) against the Coq model's du / np_win / t_win / t_gs; dtype / memory-layout variants "
+        "(numpy float32, mixed, int16, Fortran order, strided, negative strides, last-axis stack views, Fortran-ordered "
+        "spectra; torch transposed / strided / stack views in float64 and float32) judged by the same oracle and, for integer "
+        "shifts, against the contiguous float64 call; torch real vs Fourier entry point on pairs from one stack tensor; the "
+        "three callers named by the anchors (tomography cross_correlation_align_stack, direct-ptychography "
+        "align_vbf_stack_multiscale in reference and pairwise mode, DriftCorrection.align_translation for scan directions "
+        "0/90/180/270) on stacks of translated copies: what each caller does with the returned shift must reproduce the "
+        "reference; the upsampled window of identical images must be bounded by and point symmetric about its centre sample "
+        "(the statement of C13_identical_window_le_centre_*).")
     ctx.assumptions += [
         "numpy.fft / torch.fft compute the DFT (fft2/ifft2) to float precision; np.roll is an exact circular shift",
         "the upsampled window values are an oracle input of the model (captured from the implementation); what is "
@@ -1306,6 +1323,19 @@ def run(ctx: Ctx):
         "pixel < max_shift); masks that exclude the peak are outside the claim",
         "swap clause for sub-pixel shifts is checked up to twice the accuracy tolerance (each call is within tolerance "
         "of +-shift); exactly for integer shifts, modulo the size at the half-size seam",
+        "numpy >= 2 keeps single precision in np.fft: float32 images are registered through a complex64 correlation, "
+        "'exact' then means 2e-3 pixel (as for torch float32); integer dtypes are promoted to float64",
+        "a peak exactly on the half-size boundary (even size) is judged modulo the size and |component| <= n/2: the model "
+        "returns -n/2 (C13_centre_wrap, half-open cell); float rounding of the refined peak may give +n/2 - ulp",
+        "caller cases stay inside what the callers can represent: integer translations of an image that is exactly zero "
+        "in an 8 pixel margin (tomography: scipy.ndimage.shift is not periodic; drift: padded canvas), pairwise graph "
+        "synchronisation only with un-wrapped relative shifts (all differences below half the size); scipy.ndimage.shift "
+        "with an integer shift reproduces the samples (interpolating spline), gaussian_filter / bilinear splat are "
+        "translation equivariant for integer knot offsets",
+        "hypotheses of the round-3 theorems that are premises on the image content, not checked on inputs: no_self_overlap "
+        "(no integer translate reproduces the image) and np_/t_offsets_distinct (no translate by the sub-pixel offset of a "
+        "non-centre window sample reproduces it); re additive / positive / definite and E unit-modulus are satisfiable "
+        "together with the earlier hypotheses (Example C13_nonvacuous_cs_setting)",
     ]
     ctx.cov["trusted_base"] += [
         "Coq 8.16.1 kernel incl. vm_compute (used to run the model); no native_compute",
